@@ -115,12 +115,25 @@ Theorem C10_layout_roundtrip : forall on_curve L vs,
 Proof. exact layout_roundtrip. Qed.
 
 (* canonical fixpoint: whatever decodes, re-encodes to bytes that decode to
-   the same value, and canonicalisation never grows the message *)
+   the same value, and canonicalisation never grows the message -- for every layout without
+   a plain short-channel-id list (nogrow_f), see C10_scids_empty_grows *)
 Theorem C10_fixpoint : forall on_curve L b vs,
   lay_ok L = true -> wf_bytes b -> decode on_curve L b = Some vs ->
   exists b', encode L vs = Some b' /\ decode on_curve L b' = Some vs /\
-             (length b' <= length b)%nat.
+             (forallb nogrow_f L = true -> (length b' <= length b)%nat).
 Proof. exact layout_fixpoint. Qed.
+
+(* the one field codec for which the DESIGN clause "canonicalisation never grows" is false:
+   decodeShortChanIDs accepts a zero-length id section `00 00` (no encoding byte at all),
+   encodeShortChanIDs always writes the encoding byte: `00 01 00`.  The re-encoding is a
+   fixpoint, one byte longer than the input. *)
+Theorem C10_scids_empty_grows : exists b vs e,
+  wf_bytes b /\ decode (fun _ => true) [FScids] b = Some vs /\ encode [FScids] vs = Some e /\
+  length e = (length b + 1)%nat /\ decode (fun _ => true) [FScids] e = Some vs.
+Proof.
+  exists [0; 0], [VB []], [0; 1; 0]. split; [apply wf_bytesb_spec; reflexivity|].
+  repeat split; reflexivity.
+Qed.
 
 (* lossless: layouts of exact fields ending in the extension-data field
    reproduce the input bytes (unknown records / trailing data preserved) *)
@@ -236,11 +249,11 @@ Proof. vm_compute. reflexivity. Qed.
    message out of the translator's fragment changes a generated table and breaks this
    theorem; props/c10.py then searches the affected types directly. *)
 Theorem C10_gen_coverage :
-  map fst gen_layouts = [1; 2; 17; 18; 19; 115; 131; 134; 135; 256; 257; 259; 262; 513; 777] /\
+  map fst gen_layouts = [1; 2; 17; 18; 19; 115; 131; 134; 135; 256; 257; 259; 261; 262; 513; 777] /\
   map fst gen_tlvmsgs = [16; 32; 33; 34; 35; 36; 38; 39; 40; 41; 111; 113; 117; 128; 130; 132; 133; 258; 263; 265] /\
   map fst gen_optmsgs = [136] /\
   map fst gen_fdescs = [17; 18; 19; 21; 23; 4103; 4107; 4108; 4109; 4110; 4116; 8194; 16392; 16393; 16394; 16399; 16400; 16406; 24578; 24579; 32769; 49156; 49157; 49158; 49176] /\
-  map fst unsupported_messages = [260; 261; 264; 267; 269; 271] /\
+  map fst unsupported_messages = [260; 264; 267; 269; 271] /\
   map fst unsupported_failures = [].
 Proof. vm_compute. repeat split; reflexivity. Qed.
 
